@@ -792,18 +792,21 @@ Section Run.
     pose proof (execute_queue_spec cfg fuel s1 false Hi1) as HQ.
     destruct (execute_queue cfg fuel s1 false) as [s6|s6|s6|]; cbn [piece]; auto.
     - destruct HQ as (q & Tq & Iq & _ & Pq).
-      destruct (death_check cfg fuel (emit s6 [VPhase2End]) true) as [s8|] eqn:ED; cbn [piece]; auto.
+      destruct (run_slot cfg fuel s6 LPhase2 (active_id s6) (active_id s6)) as [s6'|] eqn:ER2; cbn [piece]; auto.
+      destruct (run_slot_nb cfg _ _ _ _ _ _ ER2) as (r2 & Tr & Pr & Ir & _).
+      destruct (death_check cfg fuel (emit s6' [VPhase2End]) true) as [s8|] eqn:ED; cbn [piece]; auto.
       destruct (death_check_nb _ _ _ _ _ ED) as (d & Td & Pd & Id & _).
       cbn [trace emit in_attack] in Td, Id.
       set (te := VTurnEnd (chars s8) (enemies s8)).
-      assert (A8 : arun (mkA (PPhase2 a) []) (q ++ VPhase2End :: d ++ [te]) = Some (mkA PBetween [])).
-      { rewrite arun_app, (Pq (PPhase2 a) eq_refl). cbn [arun].
+      assert (A8 : arun (mkA (PPhase2 a) []) (q ++ r2 ++ VPhase2End :: d ++ [te]) = Some (mkA PBetween [])).
+      { rewrite arun_app, (Pq (PPhase2 a) eq_refl).
+        rewrite arun_app, (Pr (mkA (PPhase2 a) []) eq_refl). cbn [arun].
         change (astep (mkA (PPhase2 a) []) VPhase2End) with (Some (mkA (PEnd2 a) [])). cbn iota.
         rewrite arun_app, (Pd (mkA (PEnd2 a) []) eq_refl). reflexivity. }
-      assert (T8 : trace (emit s8 [te]) = trace s1 ++ q ++ VPhase2End :: d ++ [te]).
-      { cbn [trace emit]. rewrite Td, Tq. rewrite <- !app_assoc. reflexivity. }
+      assert (T8 : trace (emit s8 [te]) = trace s1 ++ q ++ r2 ++ VPhase2End :: d ++ [te]).
+      { cbn [trace emit]. rewrite Td, Tr, Tq. rewrite <- !app_assoc. reflexivity. }
       destruct (exit_check_cases cfg (emit s8 [te])) as [E|(r & E)]; rewrite E; cbn [piece].
-      + eexists. split; [exact T8|]. split; [|exact A8]. unfold idle. cbn. rewrite Id. exact Iq.
+      + eexists. split; [exact T8|]. split; [|exact A8]. unfold idle. cbn. rewrite Id, Ir. exact Iq.
       + eexists. split; [cbn [trace emit]; cbn [trace emit] in T8; rewrite T8, <- app_assoc; reflexivity|].
         rewrite arun_app, A8. reflexivity.
     - destruct HQ as (q & Tq & Pq). eexists. split; [exact Tq|]. apply Pq. reflexivity.
@@ -817,13 +820,18 @@ Section Run.
     destruct (match get_unit (units s) id with Some _ => false | None => true end); cbn [piece]; auto.
     destruct (turn_start_flags _ _ _ _ _ _ ES) as [Ha Hc].
     set (ts := VTurnStart id av tot (map (fun x => (fst (fst x), snd (fst x))) st)).
-    set (s2 := emit (emit (set_active (set_turn s t') id) [ts]) [VPhase1Start]).
-    assert (Hon2 : turn_on s2) by (split; assumption).
-    assert (Hi2 : idle s2) by exact Hi.
+    set (s2a := emit (emit (set_active (set_turn s t') id) [ts]) [VPhase1Start]).
+    assert (Hon2a : turn_on s2a) by (split; assumption).
+    assert (Hi2a : idle s2a) by exact Hi.
     assert (A2 : arun (mkA p []) [ts; VPhase1Start] = Some (mkA (PPhase1 id) [])).
     { destruct Hp as [ -> | -> ]; reflexivity. }
-    apply (piece_prefix p (PPhase1 id) s s2 [ts; VPhase1Start]);
-      [cbn [trace emit s2 set_active set_turn]; rewrite <- app_assoc; reflexivity|exact A2|].
+    apply (piece_prefix p (PPhase1 id) s s2a [ts; VPhase1Start]);
+      [cbn [trace emit s2a set_active set_turn]; rewrite <- app_assoc; reflexivity|exact A2|].
+    destruct (run_slot cfg fuel s2a LPhase1 id id) as [s2|] eqn:ER1; cbn [piece]; auto.
+    destruct (run_slot_nb cfg _ _ _ _ _ _ ER1) as (r1 & Tr1 & Pr1 & Ir1 & Fr1).
+    assert (Hi2 : idle s2) by (unfold idle; congruence).
+    assert (Hon2 : turn_on s2) by (eapply turn_on_tfl; eassumption).
+    apply (piece_prefix _ (PPhase1 id) s2a s2 r1 _ Tr1 (Pr1 (mkA (PPhase1 id) []) eq_refl)).
     destruct (death_check cfg fuel s2 false) as [s3|] eqn:ED; cbn [piece]; auto.
     pose proof (death_check_nb _ _ _ _ _ ED) as E3.
     destruct E3 as (d & Td & Pd & Id & Fd).
@@ -985,7 +993,7 @@ Definition demo_cfg : config :=
     [[SInsertAbility 1 75 TSelfSel [] 2%nat; SAttack 3 [TPrimary; TPrimary] true 30];
      [SAttack 4 [TId 1] true 10];
      [SAttack 5 [TId 2] true 100; SSample]]
-    [(1, [mkDec 0 100; mkDec 1 101])] [] [] [] [] [] [] 5 4.
+    [(1, [mkDec 0 100; mkDec 1 101])] [] [] [] [] [] [] [] [] 5 4.
 
 Example demo_cfg_runs :
   match start demo_cfg 200 with
